@@ -11,7 +11,7 @@ from harness.C16_util import MixRunner, CtlRunner, ValRunner, OBJ_KINDS, F
 PID = "C16"
 PROP_FILES = ["Prop"]
 ALLOWED_AXIOMS = []
-RULE = ("round 3: ControlStream values of every kind (None False 0 0.0 '' () list Stream nan inf callables sentinels; reads classified by identity / type), data items as int bool float Fraction ExactQ, coincidences (events ending / starting on the same sample, cumulative times exactly at .5 with even and odd integer part, empty events).  round 2: the same histories with the object read through derived objects (iter, Stream(), operators, map, "
+RULE = ("round 3b: Streamix over str / bytes / tuple zeros and items (concatenation: the order zero, then events as added, is observable) and over floats bit-exactly (primitive IEEE addition in Coq, strict left-to-right).  round 3: ControlStream values of every kind (None False 0 0.0 '' () list Stream nan inf callables sentinels; reads classified by identity / type), data items as int bool float Fraction ExactQ, coincidences (events ending / starting on the same sample, cumulative times exactly at .5 with even and odd integer part, empty events).  round 2: the same histories with the object read through derived objects (iter, Stream(), operators, map, "
         "copy, thub, an outer Streamix, a filter coefficient) and its last strong reference dropped (del + gc.collect) "
         "before / between reads; event data of every kind (list tuple deque gen iterator Stream thub Streamix "
         "ControlStream expressions, the same container twice); add() positional / keyword, delta int bool float "
@@ -459,6 +459,85 @@ def nontrivial_ctls(c, o):
   return len(set(c["sched"][:len(c["sched"]) // 2 + 1])) > 1 and any("s" in [op[0][0] for op in s["ops"]] for s in c["subs"])
 
 
+SEKINDS = ["list", "tuple", "deque", "gen", "iter", "iteronly", "stream", "thub"]
+SVIAS = ["iter", "stream", "map", "copy", "thub"]
+MUTABLE_ZERO = False   # zero=[] / bytearray(): the unchanged code updates the zero object in place (data = zero; data +=
+                       # item), every sample then holds everything played so far - reported to the orchestrator
+
+
+def seq_history(rng, nev, mk_items, overlap):
+  adds = []
+  for k in range(nev):
+    d = rng.choice([Fraction(0)] * (3 if overlap else 1) + DELTAS + [Fraction(2)])
+    if rng.random() < 0.04: d = -d - Fraction(1, 5)
+    adds.append(["add", fr(d), mk_items(k), {"ek": rng.choice(SEKINDS), "dk": rng.choice(DKINDS), "call": rng.choice(CALLS)}])
+  ops = merge(rng, adds, rng.randrange(0, 6) if rng.random() < 0.5 else 0)
+  tags = []
+  if rng.random() < 0.25:
+    ops, via = with_life(rng, ops, 0)
+    ops[[i for i, op in enumerate(ops) if op[0] == "derive"][0]][1] = rng.choice(SVIAS)
+  return ops + [["next"]] * rng.randrange(3, 14)
+
+
+def gen_seq(tier, rng):
+  """zero '' / b'' / () (also non-empty zeros) with items of the same type, several events overlapping: the output
+  is the concatenation zero, then the playing events in the order they were added"""
+  kinds = ["str", "bytes", "tuple"] + (["list", "bytearray"] if MUTABLE_ZERO else [])
+  for n in range(360 if tier == "quick" else 4000):
+    vk = kinds[n % len(kinds)]
+    lo, hi = (97, 123) if vk == "str" else (0, 256) if vk in ("bytes", "bytearray") else (-5, 300)
+    tok = lambda: [rng.randrange(lo, hi) for _ in range(rng.choice([1, 1, 1, 0, 2, 3]))]
+    nev = rng.choice([0, 1, 2, 3, 3, 4, 5])
+    zero = [] if rng.random() < 0.6 else tok()
+    ops = seq_history(rng, nev, lambda k: [tok() for _ in range(rng.randrange(0, 6))], overlap=True)
+    yield {"vkind": vk, "keep": rng.random() < 0.3, "keepk": rng.choice(KEEPK), "zero": ["seq", zero], "ops": ops,
+           "tags": ["seq", vk, "nev=%d" % min(nev, 4), "zero=" + ("empty" if not zero else "nonempty")]}
+
+
+FVALS = [1e16, -1e16, 1.0, -1.0, 0.1, 0.2, 0.3, 3.0, 1e-16, 2.0 ** 53, -(2.0 ** 53), 0.5, 1e100, -1e100, 1e-320, 0.0, -0.0,
+         1.0000000000000002, 123456789.125, 1 / 3.0]
+
+
+def gen_flt(tier, rng):
+  """float zero and float items, three or more events overlapping, values whose sum depends on the order and on the
+  rounding of every partial sum (1e16 + 1 - 1e16, 0.1 + 0.2 + 0.3 ...): every output bit-exact"""
+  for n in range(360 if tier == "quick" else 4000):
+    nev = rng.choice([1, 2, 3, 3, 4, 5, 6])
+    ln = rng.randrange(1, 6)
+    mk = lambda k: [rng.choice(FVALS).hex() if rng.random() < 0.8 else (rng.random() * 10 ** rng.randrange(-3, 17)).hex()
+                    for _ in range(rng.randrange(max(1, ln - 1), ln + 2))]
+    zero = rng.choice([0.0, 0.0, -0.0, 1.0, 0.1, 1e16, -1e16, 1e-16]).hex()
+    ops = seq_history(rng, nev, mk, overlap=True)
+    yield {"vkind": "float", "keep": rng.random() < 0.3, "keepk": rng.choice(KEEPK), "zero": ["float", zero], "ops": ops,
+           "tags": ["flt", "nev=%d" % min(nev, 4)]}
+
+
+def flit(h):
+  if "inf" in h or "nan" in h:
+    return "nan" if "nan" in h else ("neg_infinity" if h.startswith("-") else "infinity")
+  return "(%s)%%float" % h
+
+
+def lit_gen(c, o):
+  fl = c["vkind"] == "float"
+  val = flit if fl else (lambda x: L.lst([L.z(t) for t in x]))
+  ops = []
+  for op in c["ops"]:
+    if op[0] == "add": ops.append("Add %s %s" % (q(op[1]), L.lst([val(x) for x in op[2]])))
+    elif op[0] == "next": ops.append("Next")
+  obs = []
+  for x in o.get("outs", [["raise", o.get("raise", "?")]]):
+    obs.append({"added": "GAdded", "rejected": "GRejected", "stop": "GStop"}.get(x[0]) or
+               ("GItem %s" % val(x[1]) if x[0] == "item" else "GRaise %s" % L.string(str(x[1]))))
+  return "(GC %s %s %s %s)" % (L.boolean(c["keep"]), val(c["zero"][1]), L.lst(ops), L.lst(obs))
+
+
+def overlap3(c, o):
+  """some output is the sum of the zero and at least two items"""
+  adds = [op for op in c["ops"] if op[0] == "add" and F(op[1]) >= 0 and op[2]]
+  return len(adds) >= 2 and sum(1 for x in o.get("outs", []) if x[0] == "item") >= 2
+
+
 VVIAS = ["iter", "stream", "map", "copy", "thub"]     # routes that hand the value on untouched
 VPOOL = ([["none"], ["bool", False], ["bool", True], ["int", 0], ["int", 1], ["int", -(2 ** 63)], ["float", [0, 1]],
           ["float", [5, 2]], ["frac", [0, 1]], ["q", [0, 1]], ["q", [7, 3]], ["str", ""], ["str", "None"], ["str", "a"]]
@@ -561,6 +640,9 @@ FAMILIES = {
                   nontrivial_mixes),
   "ctls": Family("ctls", IMPORTS, "(list ccase)", "corr_ctls", "holds_ctls", gen_ctls, run_ctls, lit_ctls,
                  nontrivial_ctls),
+  "seq": Family("seq", IMPORTS, "(gcase Seq_addable)", "corr_seq", "holds_seq", gen_seq, run_mix, lit_gen, overlap3),
+  "flt": Family("flt", IMPORTS + " From Coq Require Import PrimFloat.", "(gcase Flt_addable)", "corr_flt", "holds_flt",
+                gen_flt, run_mix, lit_gen, overlap3),
   "ctlv": Family("ctlv", IMPORTS, "vcase", "corr_ctlv", "holds_ctlv", gen_ctlv, run_ctlv, lit_ctlv, nontrivial_ctlv),
   "ctlvs": Family("ctlvs", IMPORTS, "(list vcase)", "corr_ctlvs", "holds_ctlvs", gen_ctlvs, run_ctlvs, lit_ctlvs,
                   lambda c, o: any(nontrivial_ctlv(s, None) for s in c["subs"])),
